@@ -23,9 +23,11 @@ def jobs(tier, seed):
                 if mode in (3, 5) and C == 0: continue
                 if mode in (2, 4) and P == 0: continue
                 if mode in (2, 3) and n >= 2:
-                    out.append({'entry': 'h_c06', 'harness': 'h_c06.cpp', 'name': ['point-column', 'channel-column'][mode - 2] + '-with-surplus-in-last-frame', 'cfg': {'n': n, 'mode': mode, 'P': P, 'C': C, 'S': S, 'beyond': 3, 'surplus': 1}})
+                    out.append({'entry': 'h_c06', 'harness': 'h_c06.cpp', 'name': ['point-column', 'channel-column'][mode - 2] + '-with-surplus-in-last-frame', 'cfg': {'n': n, 'mode': mode, 'P': P, 'C': C, 'S': S, 'beyond': 3, 'surplus': 1, 'ncols': 1}})
                 out.append({'entry': 'h_c06', 'harness': 'h_c06.cpp', 'name': ['append', 'indexed', 'point-column', 'channel-column', 'point-by-name', 'channel-by-name', 'gap-then-point-by-name', 'gap-then-point-column'][mode],
-                            'cfg': {'n': n, 'mode': mode, 'P': P, 'C': C, 'S': S, 'beyond': 3 if tier == 'quick' else 5, 'surplus': 0}})
+                            'cfg': {'n': n, 'mode': mode, 'P': P, 'C': C, 'S': S, 'beyond': 3 if tier == 'quick' else 5, 'surplus': 0, 'ncols': 1}})
+                if mode in (2, 3):
+                    out.append({'entry': 'h_c06', 'harness': 'h_c06.cpp', 'name': ['point-column', 'channel-column'][mode - 2] + '-two-columns-in-one-call', 'cfg': {'n': n, 'mode': mode, 'P': P, 'C': C, 'S': S, 'beyond': 3, 'surplus': 0, 'ncols': 2}})
     for n in (1, 2, 3):
         for variant in (0, 1, 2, 3):
             for where in [-1] + list(range(n + 2)):
@@ -72,7 +74,7 @@ def frame_eq(prefix, exp, got, detail, extra_point=None, extra_channel=None):
     """obligations: frame got == frame exp (optionally with one more point / channel at the end)"""
     O = []
     def o(name, a, b, d): O.append(Obl('%s/%s' % (prefix, name), neq(a, b), '%s: %s' % (detail, d)))
-    ep = list(exp['points']) + ([extra_point] if extra_point else [])
+    ep = list(exp['points']) + (list(extra_point) if type(extra_point) is list else [extra_point] if extra_point else [])
     o('nbPoints', len(ep), got['nbPoints'], 'point count')
     for i, (a, b) in enumerate(zip(ep, got['points'])):
         for k in ('x', 'y', 'z', 'residual'):
@@ -81,7 +83,7 @@ def frame_eq(prefix, exp, got, detail, extra_point=None, extra_channel=None):
     es = exp['subframes']
     o('nbSubframes', len(es), got['nbSubframes'], 'sub-frame count')
     for s, (sa, sb) in enumerate(zip(es, got['subframes'])):
-        sa = list(sa) + ([extra_channel[s]] if extra_channel else [])
+        sa = list(sa) + ((list(extra_channel[s]) if type(extra_channel[s]) is list else [extra_channel[s]]) if extra_channel else [])
         if len(sa) != len(sb): O.append(Obl(prefix + '/nbChannels', True, '%s: sub-frame %d has %d channels, expected %d' % (detail, s, len(sb), len(sa)))); continue
         for i, (a, b) in enumerate(zip(sa, sb)):
             if 'data' in a: o('ch.data', a['data'], b['data'], 'channel %d of sub-frame %d' % (i, s))
@@ -129,8 +131,9 @@ def obligations(sec, job, st, idx=None):
         if mode in (2, 3):
             G = obsmodel.parse_dump([('dat.nbFrames', n)] + sec['given'])['frames']
         for k in range(min(n, len(A))):
-            if mode == 2: O += frame_eq('column/point', B[k], A[k], 'frame %d after adding a point column' % k, extra_point=G[k]['points'][0])
-            elif mode == 3: O += frame_eq('column/channel', B[k], A[k], 'frame %d after adding a channel column' % k, extra_channel=[sf[0] for sf in G[k]['subframes']])
+            nc = cfg.get('ncols', 1)
+            if mode == 2: O += frame_eq('column/point', B[k], A[k], 'frame %d after adding %d point column(s)' % (k, nc), extra_point=G[k]['points'][:nc])
+            elif mode == 3: O += frame_eq('column/channel', B[k], A[k], 'frame %d after adding %d channel column(s)' % (k, nc), extra_channel=[sf[:nc] for sf in G[k]['subframes']])
             elif mode == 4: O += frame_eq('column/point-by-name', B[k], A[k], 'frame %d after point(name)' % k, extra_point=dict(ZERO_POINT, name=list(b'newp')))
             elif mode == 5: O += frame_eq('column/channel-by-name', B[k], A[k], 'frame %d after analog(name)' % k, extra_channel=[{'data': 0, 'name': list(b'newa')} for _ in A[k]['subframes']])
     return O
